@@ -245,6 +245,16 @@ class DictInterp:
                 if isinstance(st.value, ast.Call):
                     self._call(st.value, env, conds)
                 continue
+            if isinstance(st, ast.Assign) and (len(st.targets) > 1 or (isinstance(st.targets[0], ast.Tuple) and isinstance(st.value, ast.Tuple) and len(st.targets[0].elts) == len(st.value.elts))):
+                # a = b = v  /  a, b = v, w : as the equivalent sequence of single assignments
+                pairs = []
+                for t in st.targets:
+                    if isinstance(t, ast.Tuple) and isinstance(st.value, ast.Tuple) and len(t.elts) == len(st.value.elts):
+                        pairs.extend(zip(t.elts, st.value.elts))
+                    else:
+                        pairs.append((t, st.value))
+                seq = [ast.copy_location(ast.Assign(targets=[t], value=v), st) for t, v in pairs]
+                return self._block(seq + list(stmts[i + 1 :]), env, conds)
             if isinstance(st, ast.Assign) and len(st.targets) == 1:
                 tgt, val = st.targets[0], st.value
                 for c in [x for x in ast.walk(val) if isinstance(x, ast.Call)]:
